@@ -31,9 +31,35 @@ def gates(tier):
         "min_decided": {a: 300 * k for a in APIS},
         "shapes": {c: 5 * k for c in ["eps_rule", "nullable_cycle", "unary_cycle", "useless_symbol", "non_generating_symbol",
                                       "unreachable_symbol", "empty_language", "start_on_rhs", "long_body", "names:int0", "names:tuple0",
-                                      "has_unary_cycle:yes", "has_unary_cycle:no", "scale:big-grammar"]},
+                                      "has_unary_cycle:yes", "has_unary_cycle:no", "scale:big-grammar"]} | {"scale:deep-unary-chain": 1},
         "min_hashseeds": 2,
     }
+
+
+def deep_unary_chain(rng):
+    """scale: a unary chain 300-400 levels deep (as a long run of epsilon arcs gives when an automaton is converted to a
+    grammar) with a unary 2-cycle X_i <-> Y_i hanging off every level; transformed under the default recursion budget."""
+    from fractions import Fraction as Fr
+
+    N = rng.randint(300, 400)
+    kind = rng.choice(["str", "int-asc", "int-desc"])
+    nm = {"str": lambda s, i: f"{s}{i}", "int-asc": lambda s, i: 2 * i + (s == "Y"), "int-desc": lambda s, i: 2 * (N - i) + (s == "Y")}[kind]
+    rules = []
+    for i in range(N):
+        X, Y = nm("X", i), nm("Y", i)
+        if i + 1 < N:
+            rules.append([Fr(3, 8), X, [nm("X", i + 1)]])
+        rules += [[Fr(1, 4), X, [Y]], [Fr(1, 4), X, ["a"]], [Fr(1, 2), Y, [X]], [Fr(1, 2), Y, ["b"]]]
+    rng.shuffle(rules)
+    return {"g": {"S": nm("X", 0), "V": ["a", "b"], "rules": rules}, "R": rng.choice(["Float", "Boolean", "Real"]), "maxlen": 1,
+            "xseed": rng.randrange(1 << 30), "rename": None, "scale": "deep-unary-chain", "default_recursion": True,
+            "only": ["unarycycleremove", "unaryremove", "cnf", "trim", "nullaryremove"]}
+
+
+def gen_case(rng, spec):
+    if rng.random() < 0.001:
+        return deep_unary_chain(rng)
+    return xform.gen_case(rng, spec)
 
 
 def run_case(case, ctx):
@@ -43,4 +69,4 @@ def run_case(case, ctx):
 def run(spec, ctx):
     if spec.get("m9"):
         return common.run_m9(spec, ctx)
-    common.loop(spec, ctx, xform.gen_case, run_case)
+    common.loop(spec, ctx, gen_case, run_case)
